@@ -82,8 +82,9 @@ class World:
 def logger_stub():
     def log(interp, *a, **k):
         return None
-    return Rec(fields={n: log for n in ("debug", "info", "warning", "error", "exception", "critical", "log")},
-               name="logger")
+    f = {n: log for n in ("debug", "info", "warning", "error", "exception", "critical", "log")}
+    f["isEnabledFor"] = lambda interp, level: False  # A-LOG: debug logging is off in the verified configuration
+    return Rec(fields=f, name="logger")
 
 
 def traceback_stub():
